@@ -78,6 +78,9 @@ func NewCaseBound(o Opts) (*Case, error) {
 			px.DownstreamProtocol, px.UpstreamProtocol = "X", "X"
 			px.ExtendConfig = map[string]interface{}{"sub_protocol": o.Down}
 		}
+		if o.ProxyExtend != nil {
+			px.ExtendConfig = o.ProxyExtend
+		}
 		filters = []v2.Filter{{Type: "proxy", Config: toMap(px)}}
 	}
 	ln := &v2.Listener{ListenerConfig: v2.ListenerConfig{Name: c.Name + "_listener", AddrConfig: c.Addr, BindToPort: true, Network: "tcp",
